@@ -199,7 +199,8 @@ def c05_generated(item):
 
 
 # ----------------------------------------------------------------------------------------------
-# C12: Canonical -> Encode -> Decode -> Reencode -> Reserialize
+# C12: bytes line  Canonical -> Encode -> Decode -> Reencode -> Reserialize -> Again -> Reorder
+#      node line   Hash -> Clear -> Found          (the same execution, recorded as a second record)
 
 def private_copy(ast):
   """SerializeAst clears ClassType.cls pointers IN PLACE; give the AST its own ClassType nodes so
@@ -212,36 +213,102 @@ def private_copy(ast):
   return ast.Visit(_Copy())
 
 
-def expected_decoded(ast):
-  """The canonically ordered original as SerializeAst defines it: module aliases undone in late
-  types, `.__init__` stripped from the module name, class pointers cleared, canonical order.
-  Returns (digest, digest of plain canonical order)."""
-  from pytype.pytd import serialize_ast, visitors, pytd_utils
-  plain = st.ast_digest(pytd_utils.CanonicalOrdering(ast))
+def pointer_free_copy(ast):
+  """The same declarations with fresh ClassType nodes that hold no class pointer."""
+  from pytype.pytd import pytd, visitors
+
+  class _Copy(visitors.Visitor):
+    def VisitClassType(self, node):  # pylint: disable=invalid-name
+      return pytd.ClassType(node.name)
+  return ast.Visit(_Copy())
+
+
+def renamed_original(ast):
+  """The original with the two renamings SerializeAst defines (`.__init__` stripped from the
+  module name, module aliases undone in late types); ClassType objects are shared with `ast`."""
+  from pytype.pytd import serialize_ast, visitors
   x = ast
   if x.name.endswith(".__init__"):
     x = x.Visit(visitors.RenameModuleVisitor(x.name, x.name.rsplit(".__init__", 1)[0]))
-  x = x.Visit(serialize_ast.UndoModuleAliasesVisitor())
-  x = pytd_utils.CanonicalOrdering(x)
-  return st.ast_digest(x), plain
+  return x.Visit(serialize_ast.UndoModuleAliasesVisitor())
+
+
+def expected_decoded(ast):
+  """The canonically ordered original as SerializeAst defines it: module aliases undone in late
+  types, `.__init__` stripped from the module name, class pointers cleared, canonical order.
+  Canonical order is a property of the DECLARATIONS: it is computed on a pointer-free copy (the
+  sort key of pytd nodes shows the pointer state, so sorting the AST as it stands - with filled,
+  mixed or absent pointers - is not the canonical order).
+  Returns (digest, digest of plain canonical order)."""
+  from pytype.pytd import pytd_utils
+  pf = pointer_free_copy(ast)
+  plain = st.ast_digest(pytd_utils.CanonicalOrdering(pf))
+  return st.ast_digest(pytd_utils.CanonicalOrdering(renamed_original(pf))), plain
+
+
+def type_nodes(ast):
+  """Every pytd.Type node below `ast` (ClassType.cls is not followed)."""
+  from pytype.pytd import pytd
+  return [n for n, _ in st.walk(ast) if isinstance(n, pytd.Type)]
+
+
+def pointer_state(node):
+  """'-' no ClassType below node; 'r' every pointer filled in; 'u' none; 'm' mixed."""
+  cts = [n for n, _ in st.walk(node) if type(n).__name__ == "ClassType"]
+  if not cts:
+    return "-"
+  k = sum(1 for c in cts if c.cls is not None)
+  return "r" if k == len(cts) else "u" if k == 0 else "m"
+
+
+def hdigest(nodes):
+  return tdigest(",".join(str(h) for h in sorted(hash(n) for n in nodes)))
 
 
 def c12_events(ast, src_path=None):
+  """One execution of both lines on `ast`.  Returns {"events": bytes line, "nodes": node line,
+  "bytes": len(b1), "ptr": [ClassType nodes with pointer before Serialize, after]}."""
   boot.boot()
   from pytype.imports import pickle_utils
   from pytype.pytd import pytd_utils
-  evs = []
+  evs, nod = [], []
+  out = {"events": evs, "nodes": nod, "bytes": 0, "ptr": [0, 0]}
   try:
     x = private_copy(ast)
     c0, plain = expected_decoded(x)
     evs.append(ev("Canonical", True, c0, e=(c0 == plain)))
   except Exception as e:  # pylint: disable=broad-except
-    return [ev("Canonical", False, x=_err(e))]
+    evs.append(ev("Canonical", False, x=_err(e)))
+    return out
+  # node line, step Hash: the type nodes of the AST about to be serialised, pointers as they are
+  # (the renamed original shares its ClassType objects with x, which Serialize clears in place)
+  try:
+    mine = type_nodes(pytd_utils.CanonicalOrdering(renamed_original(x)))
+    held = set(mine)
+    cts = [n for n in mine if type(n).__name__ == "ClassType"]
+    out["ptr"][0] = sum(1 for c in cts if c.cls is not None)
+    nod.append(ev("Hash", True, hdigest(mine)))
+  except Exception as e:  # pylint: disable=broad-except
+    mine = held = None
+    nod.append(ev("Hash", False, x=_err(e)))
   try:
     b1 = pickle_utils.Serialize(x, src_path=src_path)
     evs.append(ev("Encode", True, tdigest(b1)))
+    out["bytes"] = len(b1)
   except Exception as e:  # pylint: disable=broad-except
-    return evs + [ev("Encode", False, x=_err(e))]
+    evs.append(ev("Encode", False, x=_err(e)))
+    if mine is not None:
+      nod.append(ev("Clear", False, x="Encode: " + _err(e)))
+    return out
+  if mine is not None:
+    try:
+      out["ptr"][1] = sum(1 for c in cts if c.cls is not None)
+      lost = [n for n in mine if n not in held]
+      nod.append(ev("Clear", True, hdigest(mine), e=not lost,
+                    x="" if not lost else "not found in the set built before Serialize: %r" % (lost[0],)))
+    except Exception as e:  # pylint: disable=broad-except
+      nod.append(ev("Clear", False, x=_err(e)))
+      mine = None
   try:
     dec = pickle_utils.DecodeAst(b1)
     canon = pytd_utils.CanonicalOrdering(x)      # x's pointers are cleared now; names remain
@@ -249,7 +316,18 @@ def c12_events(ast, src_path=None):
                   x="" if dec.ast.name == canon.name or canon.name.endswith(".__init__")
                   else "module name changed"))
   except Exception as e:  # pylint: disable=broad-except
-    return evs + [ev("Decode", False, x=_err(e))]
+    evs.append(ev("Decode", False, x=_err(e)))
+    if mine is not None:
+      nod.append(ev("Found", False, x="Decode: " + _err(e)))
+    return out
+  if mine is not None:
+    try:
+      theirs = type_nodes(dec.ast)
+      dup = [n for n in theirs if n not in held]
+      nod.append(ev("Found", True, hdigest(theirs), e=not dup,
+                    x="" if not dup else "decoded node not found in the set of the original's nodes: %r" % (dup[0],)))
+    except Exception as e:  # pylint: disable=broad-except
+      nod.append(ev("Found", False, x=_err(e)))
   try:
     b2 = pickle_utils.Encode(dec)
     evs.append(ev("Reencode", True, tdigest(b2)))
@@ -260,10 +338,20 @@ def c12_events(ast, src_path=None):
     evs.append(ev("Reserialize", True, tdigest(b3)))
   except Exception as e:  # pylint: disable=broad-except
     evs.append(ev("Reserialize", False, x=_err(e)))
-  return evs, len(b1)
+  try:
+    b4 = pickle_utils.Serialize(x, src_path=src_path)     # the SAME ast object, a second time
+    evs.append(ev("Again", True, tdigest(b4)))
+  except Exception as e:  # pylint: disable=broad-except
+    evs.append(ev("Again", False, x=_err(e)))
+  try:
+    evs.append(ev("Reorder", True, st.ast_digest(pytd_utils.CanonicalOrdering(dec.ast))))
+  except Exception as e:  # pylint: disable=broad-except
+    evs.append(ev("Reorder", False, x=_err(e)))
+  return out
 
 
-def _c12_pack(ident, origin, ast, src_path=None):
+def _c12_pack(ident, origin, ast, src_path=None, extra=None):
+  """-> [bytes-line record, node-line record] of one execution (+ the counterfactual one)."""
   feats = st.features(ast)
   r = c12_events(ast, src_path)
   present = st.c12_deviations_present(ast)
@@ -272,15 +360,18 @@ def _c12_pack(ident, origin, ast, src_path=None):
     # counterfactual run for attribution (never a verdict): the same AST without the triggers
     try:
       v = c12_events(st.c12_neutralise(ast, present), src_path)
-      v = v[0] if isinstance(v, tuple) else v
     except Exception as e:  # pylint: disable=broad-except
-      v = [ev("Canonical", False, x="neutraliser: " + _err(e))]
-    variants.append({"without": present, "events": v})
-  if isinstance(r, tuple):
-    return {"id": ident, "origin": origin, "events": r[0], "bytes": r[1], "feats": feats,
-            "devs": present, "variants": variants}
-  return {"id": ident, "origin": origin, "events": r, "bytes": 0, "feats": feats, "devs": present,
-          "variants": variants}
+      v = {"events": [ev("Canonical", False, x="neutraliser: " + _err(e))],
+           "nodes": [ev("Hash", False, x="neutraliser: " + _err(e))]}
+    variants.append({"without": present, "run": v})
+  base = {"origin": origin, "feats": feats, "devs": present, "ptr": r["ptr"]}
+  base.update(extra or {})
+  out = [dict(base, id=ident, line="bytes", events=r["events"], bytes=r["bytes"],
+              variants=[{"without": v["without"], "events": v["run"]["events"]} for v in variants])]
+  if r["nodes"]:
+    out.append(dict(base, id=ident + "#nodes", line="nodes", events=r["nodes"], bytes=0, feats={},
+                    variants=[{"without": v["without"], "events": v["run"]["nodes"]} for v in variants]))
+  return out
 
 
 def c12_emitted(item):
@@ -291,39 +382,87 @@ def c12_emitted(item):
     r = analyze_program(item["src"])
     if r["outcome"] != "result":
       return [{"id": item["id"], "origin": "emitted", "skip": r["outcome"], "events": []}]
-    out = [_c12_pack(item["id"] + ":inferred", "inferred", r["ast"])]
+    out = _c12_pack(item["id"] + ":inferred", "inferred", r["ast"])
     try:
       exp = serialize_ast.PrepareForExport("verif_mod", r["ast"], loader())
     except Exception as e:  # pylint: disable=broad-except
       out.append({"id": item["id"] + ":export", "origin": "export", "skip": "export:" + _err(e),
                   "events": []})
       return out
-    out.append(_c12_pack(item["id"] + ":export", "export", exp, "verif_mod.py"))
+    out += _c12_pack(item["id"] + ":export", "export", exp, "verif_mod.py")
     return out
   except Exception as e:  # pylint: disable=broad-except
     return [{"id": item["id"], "origin": "emitted", "skip": "harness:" + _err(e) +
              traceback.format_exc()[-600:], "events": []}]
 
 
+def text_export(text, mod):
+  """Stub TEXT -> exportable AST under module name `mod`, the way pytype/pyi/parse_pickle.py
+  (--pyi input) and PrepareForExport do it: local and builtins classes get their pointers,
+  typing classes stay pointer-free, classes of other modules become LateType."""
+  from pytype.pytd import serialize_ast
+  return serialize_ast.SourceToExportableAst(mod, text, loader())
+
+
 def c12_generated(item):
-  """A StubGen AST in both dialects: NamedType nodes as built, and resolved through the loader
-  (ClassType nodes with pointers)."""
+  """A StubGen AST in three dialects: NamedType nodes as built; resolved through the loader
+  (ClassType nodes with pointers); and, if the item names a module (`mod`), printed and read
+  back from the text under that module name (mixed pointer state)."""
   try:
     from pytype.pytd import pytd_utils
     loader()
     x = st.stub_ast(item["stub"])
-    out = [_c12_pack(item["id"] + ":named", "stubgen-named", x)]
+    out = _c12_pack(item["id"] + ":named", "stubgen-named", x)
+    text = pytd_utils.Print(x)
     try:
-      res = resolve_text(pytd_utils.Print(x))
+      res = resolve_text(text)
     except Exception as e:  # pylint: disable=broad-except
       out.append({"id": item["id"] + ":resolved", "origin": "stubgen-resolved",
                   "skip": "resolve:" + _err(e), "events": []})
       return out
-    out.append(_c12_pack(item["id"] + ":resolved", "stubgen-resolved", res))
+    out += _c12_pack(item["id"] + ":resolved", "stubgen-resolved", res)
+    if item.get("mod"):
+      try:
+        exp = text_export(text, item["mod"])
+      except Exception as e:  # pylint: disable=broad-except
+        out.append({"id": item["id"] + ":text", "origin": "stubgen-text",
+                    "skip": "export:" + _err(e), "events": []})
+        return out
+      out += _c12_pack(item["id"] + ":text@" + item["mod"], "stubgen-text", exp, item["mod"] + ".pyi",
+                       extra={"mod": item["mod"]})
     return out
   except Exception as e:  # pylint: disable=broad-except
     return [{"id": item["id"], "origin": "stubgen", "skip": "harness:" + _err(e) +
              traceback.format_exc()[-600:], "events": []}]
+
+
+def c12_mix(item):
+  """A stub of specs/ExportStubs.tla (term format of StubGen + module name): built, printed, and
+  the TEXT read back under the module name the spec chose."""
+  try:
+    from pytype.pytd import pytd_utils
+    loader()
+    c = item["stub"]
+    text = pytd_utils.Print(st.stub_ast(c))
+    try:
+      exp = text_export(text, c["mod"])
+    except Exception as e:  # pylint: disable=broad-except
+      return [{"id": item["id"], "origin": "mix", "skip": "harness:the stub text of ExportStubs.tla does not "
+               "load: " + _err(e) + " " + text[:300], "events": []}]
+    out = _c12_pack(item["id"] + "@" + c["mod"], "mix", exp, c["mod"] + ".pyi",
+                    extra={"mod": c["mod"], "flags": {k: bool(c[k]) for k in ("sensitive", "mixed", "enum")},
+                           "text": text})
+    if item.get("want_order"):
+      out[0]["unions"] = union_orders(exp)
+    return out
+  except Exception as e:  # pylint: disable=broad-except
+    return [{"id": item["id"], "origin": "mix", "skip": "harness:" + _err(e) +
+             traceback.format_exc()[-600:], "events": []}]
+
+
+def union_orders(ast):
+  from pytype.pytd import pytd, pytd_utils
+  return [[pytd_utils.Print(t) for t in n.type_list] for n, _ in st.walk(ast) if isinstance(n, pytd.UnionType)]
 
 
 FIXTURE_MODULES = ("os", "sys", "types", "abc")     # the fixture typeshed (loaded, not bundled)
@@ -373,8 +512,8 @@ def c12_bundled(_):
     if mod.ast is None:
       continue
     rec = _c12_pack("bundled:" + name, "bundled", mod.ast, mod.filename)
-    out.append(rec)
-    singles[name] = rec
+    out += rec
+    singles[name] = rec[0]
   # the bundle path
   try:
     copies = [(name, mod.filename, private_copy(mod.ast)) for name, mod in mods if mod.ast is not None]
@@ -393,8 +532,11 @@ def c12_bundled(_):
     data2 = pickle_utils.Encode(back)
     evs.append(ev("Reencode", True, tdigest(data2)))
     evs.append(ev("Reserialize", True, tdigest(data2)))
-    out.append({"id": "bundled:<bundle>", "origin": "bundle", "events": evs, "bytes": len(data),
-                "bundle": True})
+    # the same module objects bundled a second time (their pointers were cleared by the first call)
+    evs.append(ev("Again", True, tdigest(pickle_utils.Encode(pickle_utils.PrepareModuleBundle(copies)))))
+    evs.append(ev("Reorder", True, "bundle"))
+    out.append({"id": "bundled:<bundle>", "origin": "bundle", "line": "bytes", "events": evs,
+                "bytes": len(data), "bundle": True})
   except Exception as e:  # pylint: disable=broad-except
     out.append({"id": "bundled:<bundle>", "origin": "bundle", "skip": "bundle:" + _err(e) +
                 traceback.format_exc()[-500:], "events": []})
@@ -427,6 +569,99 @@ def eq_rows(terms, lo=0, hi=None):
   return rows
 
 
+def ct_unit(ct_terms):
+  """A module `eqmod` whose constant c<k> has the ClassType-dialect node of term k as its type
+  (no class pointer yet), with the classes the terms refer to: local classes for every undotted
+  non-builtin name and the enum-like class E with members X, Y."""
+  boot.boot()
+  from pytype.pytd import pytd
+  local = set()
+
+  def names(t):
+    tag, name, args = t
+    if tag in ("classtype", "cls", "named", "gen") and "." not in name and name not in st.BUILTIN_SHORT:
+      local.add(name)
+    if tag == "lit" and name.startswith(("enum:", "type:")):
+      local.add(name.split(":", 1)[1].split(".")[0])
+    for a in args:
+      names(a)
+  for t in ct_terms:
+    names(t)
+  obj = (pytd.ClassType("builtins.object"),)
+
+  def cls(n):
+    consts = ()
+    if n == "E":
+      consts = tuple(pytd.Constant(m, pytd.ClassType("builtins.int")) for m in ("X", "Y"))
+    return pytd.Class(name=n, keywords=(), bases=obj, methods=(), constants=consts, classes=(),
+                      decorators=(), slots=None, template=())
+  consts = tuple(pytd.Constant("c%04d" % k, st.type_node(t, class_type=True)) for k, t in enumerate(ct_terms))
+  return pytd.TypeDeclUnit(name="eqmod", constants=consts, type_params=(), functions=(), aliases=(),
+                           classes=tuple(cls(n) for n in sorted(local)))
+
+
+def fill_pointers(unit):
+  """Fill the class pointers of `unit` IN PLACE with the real visitor (what LookupClasses and
+  ProcessAst do), against the unit itself, builtins and typing."""
+  from pytype.pytd import visitors
+  ld = loader()
+  unit.Visit(visitors.FillInLocalPointers(
+      {"": unit, unit.name: unit, "builtins": ld.builtins, "typing": ld.typing}))
+  return unit
+
+
+def eq_xrows(ct_terms, lo=0, hi=None):
+  """The law across pointer states: node_a = term a built in the ClassType dialect with its class
+  pointers FILLED IN (by the real visitor, inside a module), node_j = term j built in the same
+  dialect WITHOUT pointers.  Rows as eq_rows."""
+  boot.boot()
+  unit = fill_pointers(ct_unit(ct_terms))
+  res = [c.type for c in unit.constants]
+  bare = [st.type_node(t, class_type=True) for t in ct_terms]
+  rows = []
+  for i in range(lo, len(res) if hi is None else hi):
+    a = res[i]
+    eq, hne, keep = [], [], []
+    for j, b in enumerate(bare):
+      if a == b:
+        eq.append(j + 1)
+        if hash(a) != hash(b):
+          hne.append(j + 1)
+        if len({a, b}) != 1 or len({a: 1, b: 2}) != 1 or len({b, a}) != 1:
+          keep.append(j + 1)
+    rows.append({"a": i + 1, "eq": eq, "hne": hne, "keep": keep,
+                 "ptr": [pointer_state(a), pointer_state(bare[i])]})
+  return rows
+
+
+def eq_life(ct_terms):
+  """The life of ONE node object per term (specs/PytdTerms.tla LifeOps): the node inside a module
+  whose pointers are filled in (Fill), the same object after pickle_utils.Serialize cleared the
+  module's pointers in place (Clear), the copy pickle_utils.DecodeAst builds (Decode), the copy
+  after its pointers were filled in (Refill).  Observed at each step: pointer state, hash, found
+  in a set built after Fill, equal to the original object."""
+  boot.boot()
+  from pytype.imports import pickle_utils
+  unit = fill_pointers(ct_unit(ct_terms))
+  mine = [c.type for c in unit.constants]
+  held = [{n} for n in mine]
+  steps = [[] for _ in mine]
+
+  def observe(op, nodes):
+    for k, n in enumerate(nodes):
+      steps[k].append({"op": op, "ptr": pointer_state(n), "h": str(hash(n)), "inset": n in held[k],
+                       "eq": bool(n == mine[k]) and bool(mine[k] == n)})
+  observe("Fill", mine)
+  data = pickle_utils.Serialize(unit)
+  observe("Clear", mine)
+  dec = pickle_utils.DecodeAst(data).ast
+  theirs = [dec.Lookup("c%04d" % k).type for k in range(len(mine))]
+  observe("Decode", theirs)
+  fill_pointers(dec)
+  observe("Refill", theirs)
+  return [{"a": k + 1, "steps": s} for k, s in enumerate(steps)]
+
+
 def c05_work(item):
   """Pool entry point: one C05 case for an item {"kind": "emitted"|"stubgen", ...}."""
   return c05_generated(item) if item["kind"] == "stubgen" else c05_emitted(item)
@@ -440,5 +675,10 @@ def c12_work(item):
   if k == "bundled":
     return c12_bundled(item)
   if k == "rows":
-    return [{"rows": eq_rows(item["terms"], item["lo"], item["hi"])}]
+    return [{"rows": eq_rows(item["terms"], item["lo"], item["hi"]),
+             "xrows": eq_xrows(item["ct"], item["lo"], item["hi"]) if item.get("ct") else []}]
+  if k == "life":
+    return [{"life": eq_life(item["ct"])}]
+  if k == "mix":
+    return c12_mix(item)
   return c12_emitted(item)
